@@ -442,7 +442,7 @@ func writeReplay(id string, seed int64, tier string, v vf.Violation) string {
 
 // ---- race logs -------------------------------------------------------------
 
-var fnLine = regexp.MustCompile(`^\s+(github\.com/dgrr/http2[^\s(]*)\(`)
+var fnLine = regexp.MustCompile(`^\s+(github\.com/dgrr/http2\.\S+?)\(\)\s*$`)
 
 func parseRaceLogs(bdir, id string, findings []vf.Finding, known map[string]int, info map[string]any, seed int64) []vf.Violation {
 	files, _ := filepath.Glob(filepath.Join(bdir, "race.*"))
@@ -480,8 +480,12 @@ func parseRaceLogs(bdir, id string, findings []vf.Finding, known map[string]int,
 				}
 				if section >= 0 && section < 2 && !got[section] {
 					if m := fnLine.FindStringSubmatch(l); m != nil {
+						name := strings.TrimPrefix(m[1], "github.com/dgrr/http2.")
+						if strings.HasPrefix(name, "verif") || strings.HasPrefix(name, "Verif") {
+							continue // a verification hook frame: look further down the stack
+						}
 						got[section] = true
-						inner = append(inner, strings.TrimPrefix(m[1], "github.com/dgrr/http2."))
+						inner = append(inner, name)
 					}
 				}
 			}
